@@ -128,6 +128,14 @@ def compare_case(ctx, decoder, msg, origin, name=None):
         del recent[:]
 
 
+# descriptor lists that differ only inside a nested replication / behind a sequence / in the last member of a replication
+NEAR_LISTS = [([103002, 4004, 101002, 7002], [103002, 4004, 101002, 12101]),
+              ([1001, 102002, 301011, 101003, 12001], [1001, 102002, 301011, 101003, 10004]),
+              ([104000, 31001, 2001, 102002, 4024, 12001], [104000, 31001, 2001, 102002, 4024, 13003]),
+              ([101002, 301011, 12001], [101002, 301012, 12001]),
+              ([1001, 103000, 31001, 101002, 4024, 12001, 2001], [1001, 103000, 31001, 101002, 4025, 12001, 2001])]
+
+
 def judge_values(kind, m, msg, opts):
     """oracle of C01 for a message delivered in the middle of other work: R's labels and values (full decodes)"""
     if kind != 'full':
@@ -224,6 +232,22 @@ def run(ctx):
         if msg.feat.get('cs-narrow'):
             ctx.count('narrow_character_increment_cases')
         compare_case(ctx, decoder, msg, 'narrow-strings', 'narrow-character-increments')
+    # a decoder with template compilation on is a decoder: for templates within the scope the option is documented for (operators
+    # opened and closed inside one replication scope) it returns the FM-94 values too - also for consecutive messages whose
+    # descriptor lists differ only deep inside (nested replications, sequences): one long-lived compiling decoder, both orders
+    from mon.gen.templates import scoped
+    decc = Decoder(compiled_template_cache_max=4)
+    for pi, (ia, ib) in enumerate(NEAR_LISTS):
+        if not ctx.mine(pi):
+            continue
+        try:
+            pair = [R.build_message(ids, B33, D33, R.Policy(ctx.rng), 2, bool(pi % 2), 4) for ids in (ia, ib)]
+        except R.Unsupported:
+            continue
+        for msg in (pair[0], pair[1], pair[0], pair[1]):
+            if scoped(msg.ids, D33):
+                ctx.count('compiling_decoder_cases')
+                compare_case(ctx, decc, msg, 'compiling-decoder', 'near-identical-descriptor-lists')
     files = corpus_files()
     if ctx.quick:
         files = [f for f in files if os.sep + 'data' + os.sep in f]
@@ -237,6 +261,9 @@ def run(ctx):
         if n % 5 == 0:
             provoke_failure(ctx, decoder, c[0])
         compare_case(ctx, decoder, c[0], 'random')
+        if n % 4 == 0 and scoped(c[0].ids, cases.tables(c[1])[1]):
+            ctx.count('compiling_decoder_cases')
+            compare_case(ctx, decc, c[0], 'compiling-decoder')
 
 
 def replay(ctx, case):
